@@ -307,27 +307,53 @@ func (r *caseRun) opFlushIndex() {
 	r.c.Op("findex", r.n.pos().String())
 }
 
-// opFlushData = dataFamily.Flush, observed at its three steps. With crashMid the node directory is
-// imaged between the data commit and the WAL acknowledgement, and the case continues from that image.
-func (r *caseRun) opFlushData(crashMid bool) {
+// crash points inside dataFamily.Flush
+const (
+	noCrash  = 0
+	crashMid = 1 // between the data commit and the WAL acknowledgement
+	crashAck = 2 // right after the WAL acknowledgement
+)
+
+// opFlushData = dataFamily.Flush, observed at its three steps. With a crash point the node
+// directory is imaged there and the case continues from that image. whole=true runs the flush
+// checker's own doFlush instead (metadata flush, index flush, family flush in the code's order).
+func (r *caseRun) opFlushData(crashAt int, whole bool) {
 	before := r.n.pos()
-	var mid *positions
+	var mid, post *positions
 	img := ""
 	var imgErr error
+	image := func() {
+		if img, imgErr = r.newRoot(); imgErr == nil {
+			imgErr = copyTree(r.n.root, img)
+		}
+	}
 	r.n.midFlush = func() {
 		if mid != nil {
 			return
 		}
 		p := r.n.pos()
 		mid = &p
-		if crashMid {
-			if img, imgErr = r.newRoot(); imgErr == nil {
-				imgErr = copyTree(r.n.root, img)
-			}
+		if crashAt == crashMid {
+			image()
 		}
 	}
-	ok := r.guard("flush family", r.n.flushFamily)
-	r.n.midFlush = nil
+	r.n.postAck = func() {
+		if post != nil {
+			return
+		}
+		p := r.n.pos()
+		post = &p
+		if crashAt == crashAck {
+			image()
+		}
+	}
+	var ok bool
+	if whole {
+		ok = r.guard("doFlush", r.n.doFlush)
+	} else {
+		ok = r.guard("flush family", r.n.flushFamily)
+	}
+	r.n.midFlush, r.n.postAck = nil, nil
 	if !ok {
 		return
 	}
@@ -336,6 +362,16 @@ func (r *caseRun) opFlushData(crashMid bool) {
 		return
 	}
 	after := r.n.pos()
+	if whole {
+		r.sh.metric.prepare(r.sh.swapOnEmpty)
+		r.sh.tagv.prepare(r.sh.swapOnEmpty)
+		r.sh.metric.flush()
+		r.sh.tagv.flush()
+		r.c.Op("fmeta", before.String())
+		r.sh.flushIndex()
+		r.c.Op("findex", before.String())
+		r.c.Branch("real-doFlush")
+	}
 	r.sh.freeze(r.entries)
 	r.c.Op("freeze", before.String())
 	if mid == nil {
@@ -345,12 +381,20 @@ func (r *caseRun) opFlushData(crashMid bool) {
 		return
 	}
 	r.c.Op("dcommit", mid.String())
-	if crashMid && img != "" {
+	if crashAt == crashMid && img != "" {
 		r.c.Branch("crash-between-commit-and-ack")
 		r.crashTo(img)
 		return
 	}
-	r.c.Op("ack", after.String())
+	if post != nil {
+		r.c.Op("ack", post.String())
+	} else {
+		r.c.Op("ack", after.String())
+	}
+	if crashAt == crashAck && img != "" {
+		r.c.Branch("crash-right-after-ack")
+		r.crashTo(img)
+	}
 }
 
 func (r *caseRun) opGC() {
@@ -622,7 +666,7 @@ func (r *caseRun) witnessWindow() {
 	r.opAppend(1, 0) // NEW metric name between the metadata flush and the freeze
 	r.opApply()
 	r.opFlushIndex()
-	r.opFlushData(false)
+	r.opFlushData(noCrash, false)
 	r.opCrash()
 }
 
@@ -631,7 +675,7 @@ func (r *caseRun) witnessWedge() {
 	round := func() {
 		r.opFlushMeta()
 		r.opFlushIndex()
-		r.opFlushData(false)
+		r.opFlushData(noCrash, false)
 	}
 	r.opAppend(0, 0)
 	r.opApply()
@@ -673,7 +717,7 @@ func (r *caseRun) splitApplyRace() bool {
 	if id := r.n.liveIDs(e); id.ok {
 		r.ids[e.Seq] = append(r.ids[e.Seq], id)
 	}
-	r.opFlushData(false)
+	r.opFlushData(noCrash, false)
 	if r.broken {
 		return false
 	}
@@ -774,14 +818,14 @@ func (r *caseRun) randomCase(disciplined bool) {
 				r.applyAll()
 				known = append(known, [2]int{m, r.entries[len(r.entries)-1].Tagv})
 			}
-			inRound := func() {
+			inRound := func() bool {
 				// entries applied between the steps of the round
 				if rng.Intn(3) != 0 {
-					return
+					return false
 				}
 				if disciplined {
 					if len(known) == 0 {
-						return
+						return false
 					}
 					p := known[rng.Intn(len(known))]
 					r.opAppend(p[0], p[1])
@@ -795,6 +839,28 @@ func (r *caseRun) randomCase(disciplined bool) {
 					r.applyAll()
 					known = append(known, [2]int{m, t})
 				}
+				return true
+			}
+			crashAt := noCrash
+			if crashes < 3 {
+				switch x := rng.Intn(10); {
+				case x < 3:
+					crashAt = crashMid
+				case x < 5:
+					crashAt = crashAck
+				}
+			}
+			if rng.Intn(3) == 0 {
+				// the flush checker's own doFlush: the whole round in one call
+				if crashAt != noCrash {
+					crashes++
+					if disciplined {
+						known = nil
+					}
+				}
+				r.opFlushData(crashAt, true)
+				maybeCrash(15)
+				continue
 			}
 			r.opFlushMeta()
 			if maybeCrash(8) {
@@ -812,24 +878,19 @@ func (r *caseRun) randomCase(disciplined bool) {
 			if r.broken {
 				break
 			}
-			switch x := rng.Intn(10); {
-			case x < 2 && r.n.pending() == false:
-				// flush racing replication: needs a pending entry with old names
-				if len(known) > 0 {
-					p := known[rng.Intn(len(known))]
-					r.opAppend(p[0], p[1])
-					r.splitApplyRace()
-				} else {
-					r.opFlushData(false)
+			if rng.Intn(5) == 0 && !r.n.pending() && len(known) > 0 {
+				// flush racing replication: Flush between WriteRows and CommitSequence of an entry with old names
+				p := known[rng.Intn(len(known))]
+				r.opAppend(p[0], p[1])
+				r.splitApplyRace()
+			} else {
+				if crashAt != noCrash {
+					crashes++
+					if disciplined {
+						known = nil
+					}
 				}
-			case x < 5 && crashes < 3:
-				crashes++
-				r.opFlushData(true) // crash between the data commit and the acknowledgement
-				if disciplined {
-					known = nil
-				}
-			default:
-				r.opFlushData(false)
+				r.opFlushData(crashAt, false)
 			}
 			maybeCrash(15)
 		}
